@@ -319,6 +319,8 @@ class SequenceOfValuesColumn(MafCustomColumnRecord):
         for i, value in enumerate(self.value):
             column = column_cls("", value)  # create a new column to validate
             msg = column.__validate__()
+            if msg is None and ";" in str(column):
+                msg = "contains the list separator ';'"
             if msg:
                 return "For the %dth value in '%s': %s" % (i + 1, str(self.value), msg)
         return None
